@@ -472,7 +472,7 @@ pub fn selftest_determinism(props: &[Box<dyn Property>], n: u64) -> i32 {
         let _lock = lock_property(prop.id());
         // enumeration checks run hundreds of invocations per case: fewer cases
         let n = n_req.min((prop.cases("quick") / 5).max(3));
-        let batch = |workers: usize, seed: u64| -> Vec<(Vec<u64>, Option<String>)> {
+        let batch = |workers: usize, seed: u64, n: u64| -> Vec<(Vec<u64>, Option<String>)> {
             let next = Arc::new(AtomicU64::new(0));
             let (tx, rx) = mpsc::channel();
             std::thread::scope(|s| {
@@ -501,13 +501,15 @@ pub fn selftest_determinism(props: &[Box<dyn Property>], n: u64) -> i32 {
             }
             out
         };
-        let a = batch(16, 1);
-        let b = batch(4, 1);
-        let c = batch(1, 1);
-        let d = batch(16, 1);
+        // the single-worker execution is the slow one: a quarter of the cases
+        let n1 = (n / 4).max(2).min(n);
+        let a = batch(16, 1, n);
+        let b = batch(4, 1, n);
+        let c = batch(1, 1, n1);
+        let d = batch(16, 1, n);
         for i in 0..n as usize {
             total += 1;
-            if a[i] != b[i] || a[i] != c[i] || a[i] != d[i] {
+            if a[i] != b[i] || a[i] != d[i] || (i < n1 as usize && a[i] != c[i]) {
                 bad += 1;
                 if bad <= 5 {
                     eprintln!("NONDETERMINISM: property {} case {}: digests differ between executions", prop.id(), i);
@@ -515,7 +517,7 @@ pub fn selftest_determinism(props: &[Box<dyn Property>], n: u64) -> i32 {
             }
         }
     }
-    eprintln!("selftest-determinism: {} case seeds x 4 executions (16, 4, 1, 16 workers), {} divergent", total, bad);
+    eprintln!("selftest-determinism: {} case seeds x 3 executions (16, 4, 16 workers; a quarter of them also with 1 worker), {} divergent", total, bad);
     if bad > 0 {
         2
     } else {
